@@ -2,6 +2,7 @@
 package main
 
 import (
+	"encoding/json"
 	"flag"
 	"fmt"
 	"os"
@@ -11,6 +12,7 @@ import (
 )
 
 type entry struct {
+	replay      func(r *monitor.Run, detail json.RawMessage)
 	run         func(r *monitor.Run)
 	level       string
 	rule        string
@@ -20,6 +22,10 @@ type entry struct {
 var registry = map[string]entry{}
 
 func main() {
+	if len(os.Args) >= 4 && os.Args[1] == "replay" {
+		doReplay(os.Args[2], os.Args[3])
+		return
+	}
 	if len(os.Args) < 3 || os.Args[1] != "run" {
 		ids := []string{}
 		for k := range registry {
@@ -48,6 +54,38 @@ func main() {
 	}
 	e.run(r)
 	os.Exit(r.Finish(e.rule, e.assumptions, nil))
+}
+
+// doReplay re-executes the scenario stored in a violation file.
+func doReplay(id, path string) {
+	e, ok := registry[id]
+	if !ok || e.replay == nil {
+		fmt.Fprintf(os.Stderr, "no replay support for %s\n", id)
+		os.Exit(2)
+	}
+	b, err := os.ReadFile(path)
+	if err != nil {
+		fmt.Fprintln(os.Stderr, err)
+		os.Exit(2)
+	}
+	var v struct {
+		Tier   string
+		Seed   int64
+		Detail json.RawMessage
+	}
+	if err := json.Unmarshal(b, &v); err != nil {
+		fmt.Fprintln(os.Stderr, err)
+		os.Exit(2)
+	}
+	r := monitor.NewRun(id, "quick", v.Seed)
+	r.NoEvidence = true
+	e.replay(r, v.Detail)
+	if r.NumViolations() > 0 {
+		fmt.Println("replay: violation recurred")
+		os.Exit(1)
+	}
+	fmt.Println("replay: no violation this time")
+	os.Exit(0)
 }
 
 func envOr(k, d string) string {
